@@ -1,6 +1,7 @@
 package props
 
 import (
+	"encoding/hex"
 	"bytes"
 	"fmt"
 	"math/big"
@@ -399,10 +400,15 @@ func (c *c12) executeMessages(o *OracleEnv, admin string, log []string) {
 // binding: the L2's bridge binding can never be re-pointed.
 func (c *c12) binding(thorough bool) {
 	run := c.run
-	for _, startClient := range []string{"", "07-tendermint-0"} {
+	for si, startClient := range []string{"", "07-tendermint-0", "07-tendermint-0"} {
 		e := newL2Env(L2EnvOpts{NoBridgeInfo: true})
 		ex := e.Executors[0].String()
 		info := e.BridgeInfo(startClient, false)
+		if si == 2 {
+			// the L1 side's address format need not be this chain's bech32: the binding was made with a hex string
+			info.BridgeAddr = "0x" + hex.EncodeToString(ophosttypes.BridgeAddress(info.BridgeId))
+			startClient += " (bridge address bound as a hex string)"
+		}
 		if r := e.L2.Deliver(opchildtypes.NewMsgSetBridgeInfo(ex, info)); r.Class != sim.OK {
 			run.Fail("C12.binding_fixed", "c12.first_binding_rejected", nil, "first SetBridgeInfo rejected: %s", r.ErrString())
 			continue
@@ -420,9 +426,17 @@ func (c *c12) binding(thorough bool) {
 			}, true},
 			{"bridge id", func(i *opchildtypes.BridgeInfo) { i.BridgeId++ }, false},
 			{"bridge address", func(i *opchildtypes.BridgeInfo) { i.BridgeAddr = ophosttypes.BridgeAddress(i.BridgeId + 1).String() }, false},
+			{"bridge address (hex string of another bridge's address)", func(i *opchildtypes.BridgeInfo) {
+				i.BridgeAddr = "0x" + hex.EncodeToString(ophosttypes.BridgeAddress(i.BridgeId+1))
+			}, false},
+			{"bridge address (another account, L1 prefix)", func(i *opchildtypes.BridgeInfo) { i.BridgeAddr = wrongPrefixAddr(sim.NewAccount("other-escrow").Addr) }, false},
+			{"bridge address (free text)", func(i *opchildtypes.BridgeInfo) { i.BridgeAddr = "bridge-two" }, false},
+			{"bridge address (bech32 of another bridge)", func(i *opchildtypes.BridgeInfo) { i.BridgeAddr = ophosttypes.BridgeAddress(i.BridgeId + 2).String() }, false},
+			{"bridge id zero", func(i *opchildtypes.BridgeInfo) { i.BridgeId = 0 }, false},
 			{"L1 chain id", func(i *opchildtypes.BridgeInfo) { i.L1ChainId = "other-l1" }, false},
-			{"L1 client id set", func(i *opchildtypes.BridgeInfo) { i.L1ClientId = "07-tendermint-7" }, startClient == ""},
-			{"L1 client id cleared", func(i *opchildtypes.BridgeInfo) { i.L1ClientId = "" }, startClient == ""},
+			{"L1 chain id (other case)", func(i *opchildtypes.BridgeInfo) { i.L1ChainId = strings.ToUpper(i.L1ChainId) }, false},
+			{"L1 client id set", func(i *opchildtypes.BridgeInfo) { i.L1ClientId = "07-tendermint-7" }, si == 0},
+			{"L1 client id cleared", func(i *opchildtypes.BridgeInfo) { i.L1ClientId = "" }, si == 0},
 		}
 		for _, m := range muts {
 			ni := info
